@@ -26,8 +26,9 @@ class Loop:
                  body_ensures: Optional[List[Named]] = None, header: Optional[str] = None,
                  elem_facts: Optional[List[str]] = None, body_twins: Optional[List[Named]] = None,
                  exit_only: bool = False, list_folds: Optional[Dict[str, Dict[str, Tuple[str, str]]]] = None,
-                 use_gfolds: Optional[List[str]] = None):
+                 use_gfolds: Optional[List[str]] = None, also_modifies: Optional[List[str]] = None):
         self.use_gfolds = use_gfolds or []
+        self.also_modifies = also_modifies or []
         self.invariants = _named(invariants, "inv")
         self.modifies = modifies
         self.index = index
